@@ -482,3 +482,85 @@ def check_rc_thresholds(ctx, F, rule="E-LIN.rcconst"):
                "reviewed threshold %s..::%s `%s %d` %s" % (k[0], k[1], k[2], k[3], "found" if k[:5] in used else
                                                            "is no longer in the code (changed comparison or constant?)"))
     return n
+
+
+def check_removal_guards(ctx, F, rule="E-LIN.rcguard"):
+    """`Manager::try_remove_node` (both managers) may take a node out of its unique table only when (1) the count before
+    the caller's release was exactly 2, (2) the manager is prepared for removals (`reorder_gc_prepared`), and (3) the
+    count re-read under the level lock is exactly 1.  Path rule on MIR: the `LevelViewSet::remove` call is unreachable
+    from the `differs` edge of each of the two count comparisons and from the `not prepared` edge of the flag test
+    (a `||` turned into `&&` lets one failed test through)."""
+    from efreelist import origins
+    n = 0
+    for fid, r in sorted(F.fns.items()):
+        if not fid.endswith("::try_remove_node") or (r.get("impl") or {}).get("trait") != "oxidd_core::Manager" \
+                or not fid.startswith(("oxidd_manager_index", "oxidd_manager_pointer")):
+            continue
+        m = F.mir.get(fid)
+        if m is None:
+            continue
+        B = cfg.Body(m)
+        blocks = m["blocks"]
+        removes = [i for i, t in B.calls() if re.search(r"LevelViewSet::<.*>::remove$|LevelViewSet<.*>::remove$", cfg.callee_name(t) or "")]
+        if not ctx.anchor(rule, "%s: removal from the level's table" % F.nice(fid)[:60], len(removes) == 1):
+            continue
+        R = removes[0]
+        problems = []
+        found = {"rc2": 0, "rc1": 0, "flag": 0}
+        # locals holding (a copy / negation of) the prepared flag
+        flag_locals, neg_locals = set(), set()
+        for i in sorted(B.reach):
+            for s in blocks[i]["s"]:
+                rv = s.get("rv") or {}
+                if isinstance(s.get("lhs"), int):
+                    if rv.get("k") == "use" and "reorder_gc_prepared" in str(rv.get("op")):
+                        flag_locals.add(s["lhs"])
+                    elif rv.get("k") == "un" and rv.get("o") == "Not" and cfg.op_place(rv.get("a", rv.get("op"))) in flag_locals:
+                        neg_locals.add(s["lhs"])
+        cmp_locals = {}
+        for i in sorted(B.reach):
+            for s in blocks[i]["s"]:
+                rv = s.get("rv") or {}
+                if rv.get("k") == "bin" and rv.get("o") in ("Eq", "Ne") and isinstance(s.get("lhs"), int):
+                    c = cfg.const_int(rv.get("b"))
+                    if c in (1, 2):
+                        names = [(cfg.callee_name(o[1]) or "") for o in origins(B, m, [rv.get("a")]) if o[0] == "call"]
+                        if any(_RCSRC.search(x) for x in names):
+                            cmp_locals[s["lhs"]] = (rv["o"], c)
+        for i in sorted(B.reach):
+            t = blocks[i]["t"]
+            if blocks[i]["c"] or t["k"] != "switch":
+                continue
+            d = cfg.op_place(t.get("d"))
+            zero = [blk for v, blk in t["t"] if str(v) == "0"]
+            other = [t.get("o")]
+            bad_edges = None
+            if d in cmp_locals:
+                op, c = cmp_locals[d]
+                found["rc%d" % c] += 1
+                bad_edges = other if op == "Ne" else zero       # count differs from the threshold
+                what = "the reference count differs from %d" % c
+            elif d in flag_locals:
+                found["flag"] += 1
+                bad_edges = zero
+                what = "the manager is not prepared for node removal"
+            elif d in neg_locals:
+                found["flag"] += 1
+                bad_edges = other
+                what = "the manager is not prepared for node removal"
+            if bad_edges:
+                reach = set()
+                for bx in bad_edges:
+                    if bx is not None:
+                        reach |= B.reachable_from(bx, avoid=(i,))
+                if R in reach:
+                    problems.append(what)
+        n += 1
+        missing = [k for k, v in found.items() if v == 0]
+        ok = not problems and not missing
+        ctx.ob(rule, "%s:%s" % (rule, fid.split("::")[0]), ok,
+               "%s (%s): %s" % (F.nice(fid), F.where(fid),
+                                "the node is removed only with previous count 2, prepared manager and re-read count 1" if ok else
+                                ("the removal from the unique table is reachable although %s" % " / ".join(problems)) if problems else
+                                "guard(s) not found: %s" % missing))
+    return n
